@@ -37,7 +37,8 @@ func (nd *node) addChild(name string, child *node) {
 
 // createDir creates a new directory.
 func (vfs *OrefaFS) createDir(parent *node, absPath, fileName string, perm fs.FileMode) *node {
-	mode := vfs.dirMode | (perm & avfs.FileModeMask &^ vfs.UMask())
+	// As mkdir(2), only the permission bits and the sticky bit of perm are used.
+	mode := vfs.dirMode | (perm & (fs.ModePerm | fs.ModeSticky) &^ vfs.UMask())
 
 	return vfs.createNode(parent, absPath, fileName, mode)
 }
